@@ -20,7 +20,7 @@ EXL_ALPHA = ALPHA.replace(",", "")
 
 def plan(tier):
     if tier == "quick":
-        return [("debug", 8, dict(ncfg=50, nexl=50, edits=10))]
+        return [("debug", 8, dict(ncfg=150, nexl=150, edits=10))]
     return [("debug", 16, dict(ncfg=1300, nexl=1300, edits=14)), ("release", 2, dict(ncfg=300, nexl=300, edits=10))]
 
 
@@ -151,12 +151,18 @@ def cfg_case(ctx, rng, max_edits):
 def queries(ctx, h, model, rng, files):
     keys = {k for _, ks in model for k, _ in ks}
     catnames = [c for c, _ in model]
-    probes = list(keys)[:6] + [word(rng, 1, 5) + "?" for _ in range(2)] + catnames[:2]
+    near = []
+    for k in list(keys)[:4]:
+        near += [k.swapcase(), k.upper(), k.lower(), k + " ", " " + k, k[:-1], k + k[-1:]]
+    probes = list(keys)[:6] + [word(rng, 1, 5) + "?" for _ in range(2)] + catnames[:2] + near
     for k in probes:
         r = ctx.call("cfg.has_key", h, k)
         if r.ok:
             eq(ctx, "cfg_has_key", r.value, k in keys, files)
-    for c in catnames[:8] + [word(rng, 1, 5) + "?absent"] + list(keys)[:1]:
+    nearc = []
+    for c in catnames[:3]:
+        nearc += [c.swapcase(), c.upper(), c + " ", c[:-1], "<" + c + ">"]
+    for c in catnames[:8] + [word(rng, 1, 5) + "?absent"] + list(keys)[:1] + nearc:
         r = ctx.call("cfg.has_category", h, c)
         if r.ok:
             empty = any(cc == c and not ks for cc, ks in model)
@@ -173,6 +179,9 @@ def exl_case(ctx, rng):
     ents = []
     for _ in range(rng.choice([0, 1, 2, 5, 9, 30])):
         n = word(rng, 0, 12, EXL_ALPHA)
+        if rng.random() < 0.15:
+            # names next to the structural ones
+            n = rng.choice(["EXLTest", "EXLT2", "exlt", "EXL", "xEXLT", "a#b", "trailing#", "Item ", " Item", "quest/000/ClsHrv001_00003"])
         if n == "EXLT" or n.startswith("#"):
             n = "x" + n
         ents.append((n, rng.choice(I + [rng.randint(-2 ** 31, 2 ** 31 - 1)])))
@@ -196,7 +205,10 @@ def exl_case(ctx, rng):
     if r2.ok:
         eq(ctx, "exl_rewrite_bytes", ctx.read("t.exl.out"), canon, [f])
     names = {a for a, _ in ents}
-    for k in list(names)[:5] + [word(rng, 1, 6, EXL_ALPHA) + "?absent", "EXLT"]:
+    nearn = []
+    for k in list(names)[:3]:
+        nearn += [k.swapcase(), k.upper(), k + " ", k[:-1], k + "x"]
+    for k in list(names)[:5] + [word(rng, 1, 6, EXL_ALPHA) + "?absent", "EXLT"] + nearn:
         r = ctx.call("exl.contains", h, k)
         if r.ok:
             eq(ctx, "exl_contains", r.value, k in names, [f])
